@@ -23,6 +23,7 @@ import sys
 import ast
 import collections
 import functools
+import threading
 import types
 
 from sigtools import _signatures, _util
@@ -591,10 +592,35 @@ def autoforwards_hint(func, args, kwargs):
         raise UnknownForwards()
 
 
+_examining = threading.local()
+
+
+def _examination_key(func, args, kwargs):
+    def ident(value):
+        return None if isinstance(value, Unknown) else id(value)
+    return (
+        id(func), tuple(ident(arg) for arg in args),
+        tuple(sorted((name, ident(arg)) for name, arg in kwargs.items())))
+
+
 def autoforwards_ast(func, func_ast, sig, args=(), kwargs={}):
-    sigs = list(forward_signatures(
-        func, CallListerVisitor(func_ast),
-        args, kwargs, sig))
+    # a function that forwards to itself, directly or through others, would
+    # be examined over and over: the inner occurrence (same function, same
+    # known arguments) is left unresolved
+    try:
+        examining = _examining.keys
+    except AttributeError:
+        examining = _examining.keys = []
+    key = _examination_key(func, args, kwargs)
+    if key in examining or len(examining) > 100:
+        raise UnknownForwards('recursive forwarding')
+    examining.append(key)
+    try:
+        sigs = list(forward_signatures(
+            func, CallListerVisitor(func_ast),
+            args, kwargs, sig))
+    finally:
+        examining.pop()
     if sigs:
         try:
             return _signatures.merge(*sigs)
